@@ -1209,3 +1209,65 @@ def local_bounded_at_before(fn, did, name, at, upper, lower0, nonneg_names, defs
         if lower0 and not nonneg(fn, r, set(nonneg_names)):
             return False, s
     return True, None
+
+
+# ---------------------------------------------------------------------------------------------------------------------
+# reads of a computed number of bytes are never issued for zero bytes
+def reads_never_empty(run, fns, rule='R11', inst='read-size-nonzero'):
+    """The simulated sockets park a read of no bytes until the next packet arrives (tcp::socket::async_read_some_impl even
+    asserts bufs[0].size()): a peer that has sent everything and waits for the answer is never answered.  Every
+    async_read / async_read_some whose buffer length is COMPUTED (not a positive literal, not a whole array) is
+    dominated by a test that excludes zero for that length: `n == 0` / `n <= 0` / `n < 1` on the false edge, `n > 0` /
+    `n != 0` on the true edge, or, for a length written `cap - used`, `used < cap` (`used >= cap` on the false edge).
+    Returns the number of computed-length reads judged."""
+    n = 0
+    for g in fns:
+        if g.cfg is None:
+            continue
+        for c in g.calls():
+            nm = (q.callee_name(c) or '').split('<')[0]
+            if not (nm.endswith('async_read') or nm.endswith('async_read_some')):
+                continue
+            for b in [x for x in walk(c) if x['k'] == 'call' and (q.callee_name(x) or '').split('<')[0].endswith('::buffer') and len(x.get('args', [])) == 2]:
+                size = q.strip_casts(b['args'][1])
+                if not is_node(size):
+                    continue
+                v = q.const_eval(g, size, lambda t: None)
+                if isinstance(v, int) and not isinstance(v, bool):
+                    if v <= 0:
+                        n += 1
+                        run.violation(rule, inst, '%s: read of %s bytes' % (g.norm, q.render(g, size)), g.loc(c), 'a read of %d bytes is issued' % v)
+                    continue
+                if size['k'] in ('sizeof',) or q.render(g, size).startswith('sizeof('):
+                    continue
+                n += 1
+                names = {q.render(g, size)}
+                alts = []       # (used, cap) pairs for lengths written cap - used
+                e = size
+                if e['k'] == 'ref' and e.get('dk') == 'local':
+                    ds = q.local_defs(g, e['did'])
+                    if len(ds) == 1:
+                        e = q.strip_casts(ds[0][1])
+                if is_node(e) and e['k'] == 'bin' and e['op'] == '-':
+                    alts.append((q.render(g, q.strip_casts(e['rhs'])), q.render(g, q.strip_casts(e['lhs']))))
+                unwrap = lambda t_: t_[4:-1] if t_.startswith('int(') and t_.endswith(')') else t_
+                ok = False
+                for at, pol in q.guards_at(g, c):
+                    cm = q.cmp_atom(at)
+                    if not cm:
+                        continue
+                    op, l, r = cm[0], unwrap(q.render(g, q.strip_casts(cm[1]))), unwrap(q.render(g, q.strip_casts(cm[2])))
+                    if not pol:
+                        op = q.NEG[op]
+                    for l_, r_, op_ in ((l, r, op), (r, l, q.SWAP[op])):
+                        if l_ in names and ((r_ == '0' and op_ in ('>', '!=')) or (r_ == '1' and op_ == '>=')):
+                            ok = True
+                        for used, cap in alts:
+                            if l_ == used and (r_ == cap or cap in r_ or r_ in cap) and op_ == '<':
+                                ok = True
+                            if l_ == cap.replace('int(', '') and r_ == used and op_ == '>':
+                                ok = True
+                run.check(ok, rule, inst, '%s: read of %s bytes' % (g.norm, q.render(g, size)[:50]), g.loc(c),
+                          'the read of `%s` bytes is issued without a dominating test that this is not zero: when it is, the read is parked until the NEXT packet arrives - a peer that has sent its whole message and waits for the answer is never answered (with a full buffer and data queued it completes at once with 0 bytes, again and again at one virtual instant)' % q.render(g, size),
+                          'dominated by a test excluding zero')
+    return n
